@@ -299,6 +299,41 @@ func (ch c20) Run(c *core.Ctx) {
 		}
 	}
 	cl.Finish()
+	// a parser that keeps one statement object per session and reconfigures it for every Parse: the
+	// statement defined first still describes with its own number of parameters after others were parsed
+	if c.Batch == 1%nb && c.Begin(39000000) {
+		sess2 := &hs.Sess{Default: func(string) *hs.Prog { return stmtProg }, ReuseStmt: true}
+		cl2 := hs.NewClient(env.Dial(sess2))
+		if err := cl2.StartupOK("u"); err == nil {
+			qs2 := []string{"select $1, $2", "select $5", "select 1", "select ?, ?, ?", "select $2 ?"}
+			var in []byte
+			for i, q := range qs2 {
+				in = append(in, pg.Parse(fmt.Sprintf("t%d", i), q, nil)...)
+			}
+			for i := range qs2 {
+				in = append(in, pg.Describe('S', fmt.Sprintf("t%d", i))...)
+			}
+			out, _ := cl2.Step(append(in, pg.Sync()...))
+			msgs := mustMsgs(out)
+			j := 0
+			for _, m := range msgs {
+				if m.T != 't' {
+					continue
+				}
+				if want := len(wire.ParseParameters(qs2[j])); len(m.OIDs) != want {
+					c.Violate("describe-count", "a statement describes with another statement's number of parameters (parser re-using one statement object)", fmt.Sprintf("statement %d %q: announced %d, ParseParameters returned %d; reply %s", j, qs2[j], len(m.OIDs), want, trim(pg.Kinds(msgs), 200)), nil)
+					break
+				}
+				j++
+				c.Count("describe_counts_compared", 1)
+			}
+			if j != len(qs2) && c.NViol() == 0 {
+				c.Violate("describe", "Parse/Describe cycle failed (parser re-using one statement object)", trim(pg.Kinds(msgs), 300), nil)
+			}
+			c.Eval("reused statement object", true)
+			cl2.Finish()
+		}
+	}
 	// Describe over a transport whose k-th Write is interrupted half-way with a temporary (timeout) error
 	// (what a write deadline does to a message larger than the socket buffer - ParameterDescription is the
 	// largest message of the exchange): whatever ParameterDescription the client gets announces the
